@@ -565,6 +565,42 @@ func c01Directed(run *ev.Run, st *cmpStats) {
 			_ = os.Unsetenv("SOURCE_DATE_EPOCH")
 		}
 	}
+	// a symbolic link that opts in with expand: true: the documented substitution covers
+	// src (the link's target) and dst alike
+	{
+		y := "name: directed\narch: amd64\nversion: 1.0.0\nmaintainer: \"D <d@example.com>\"\ndescription: d\nmtime: 2017-07-14T02:40:00Z\nrpm:\n  buildhost: verif-host\ncontents:\n  - src: /opt/${VERIF_C01_T}/target\n    dst: /opt/d/${VERIF_C01_L}\n    type: symlink\n    expand: true\n  - src: /opt/${VERIF_C01_T}/kept\n    dst: /opt/d/not-opted-in\n    type: symlink\n"
+		mapping := map[string]string{"VERIF_C01_T": "real", "VERIF_C01_L": "linkname"}
+		for _, f := range formats {
+			run.Case("directed|symlink-with-expand-true|"+f, true)
+			cfg, err := parseYAML(y, func(k string) string { return mapping[k] })
+			if err != nil {
+				run.Violate("C01/"+f+"/build-error/directed", map[string]any{"case": "symlink with expand: true", "error": err.Error()})
+				break
+			}
+			info, err := infoFor(&cfg, f)
+			if err != nil {
+				continue
+			}
+			res := packageInfo(f, info)
+			if res.Err != nil || res.Panic != "" {
+				run.Violate("C01/"+f+"/build-error/directed", map[string]any{"case": "symlink with expand: true", "error": fmt.Sprint(res.Err, ev.Short(res.Panic, 300))})
+				continue
+			}
+			pkg := dec.Decode(f, res.Bytes, false)
+			st.entries += 2
+			if e := pkg.Find("/opt/d/linkname"); e == nil || e.Kind != "symlink" || e.Link != "/opt/real/target" {
+				run.Violate("C01/"+f+"/link-target/symlink-with-expand-true", map[string]any{"want_entry": "/opt/d/linkname -> /opt/real/target", "found": e != nil, "target": func() string {
+					if e != nil {
+						return e.Link
+					}
+					return ""
+				}()})
+			}
+			if e := pkg.Find("/opt/d/not-opted-in"); e == nil || e.Link != "/opt/${VERIF_C01_T}/kept" {
+				run.Violate("C01/"+f+"/link-target/symlink-without-expand", map[string]any{"want_target": "/opt/${VERIF_C01_T}/kept", "found": e != nil})
+			}
+		}
+	}
 	for ci, dc := range cases {
 		for _, umask := range []int64{0, 0o027} {
 			s := &gen.Spec{Name: "directed", Arch: "amd64", Version: "1.0.0", Maintainer: "D <d@example.com>", Description: "d", MTime: 1500000000}
